@@ -90,7 +90,7 @@ def shard(ctx):
         while not ctx.out_of_time():
             rng = ctx.rng(i)
             i += ctx.nshards
-            w = workload.draw(rng, kinds=("isa", "casc", "corpus", "mut", "isamut"), weights=(3, 3, 3, 3, 1))
+            w = workload.draw(rng, kinds=("isa", "casc", "corpus", "mut", "isamut", "macro"), weights=(3, 3, 3, 3, 1, 4))
             nparams = 0
             if rng.random() < 0.3:
                 job, nparams = cli_job(rng, w)
